@@ -105,11 +105,15 @@ class Unknown(object):
 
 
 class Namespace(MutableMapping):
-    def __init__(self, parent=None):
+    def __init__(self, parent=None, inline=False):
         self.parent = parent
         self.names = {}
         self.nonlocals = {}
         self.immutables = set()
+        # comprehensions have names of their own but run in place; code in
+        # nested functions runs at some later point
+        self.inline = inline
+        self.deferred = parent is not None and (parent.deferred or not inline)
 
     def __getitem__(self, name):
         ns = self.nonlocals.get(name, self)
@@ -285,6 +289,29 @@ class CallListerVisitor(ast.NodeVisitor):
         self.bind_name(node.rest, node)
         self.generic_visit(node)
 
+    def visit_comprehension_expr(self, node):
+        # the for clauses bind their targets before the element is evaluated,
+        # and those names only exist inside the comprehension
+        self.namespace = Namespace(self.namespace, inline=True)
+        for generator in node.generators:
+            self.visit(generator)
+        for field in ('elt', 'key', 'value'):
+            child = getattr(node, field, None)
+            if child is not None:
+                self.visit(child)
+        self.namespace = self.namespace.parent
+
+    def visit_NamedExpr(self, node):
+        # := binds in the function the comprehension is written in
+        self.visit(node.value)
+        ns = self.namespace
+        while ns.inline and ns.parent is not None:
+            ns = ns.parent
+        ns[node.target.id] = Unknown(node)
+
+    visit_ListComp = visit_SetComp = visit_comprehension_expr
+    visit_DictComp = visit_GeneratorExp = visit_comprehension_expr
+
     def visit_FunctionDef(self, node):
         self.bind_name(getattr(node, 'name', None), node)
         # default values and decorators are evaluated in the enclosing scope
@@ -357,7 +384,7 @@ class CallListerVisitor(ast.NodeVisitor):
             hide_args, hide_kwargs))
 
     def visit_Call(self, node):
-        if self.namespace.parent is None:
+        if not self.namespace.deferred:
             self.process_Call(node)
         else:
             self.to_revisit.append((node, self.namespace))
